@@ -4,6 +4,7 @@
 mod core;
 mod wgen;
 mod model;
+mod prog;
 mod rng;
 mod runner;
 mod scen;
@@ -20,9 +21,17 @@ static GLOBAL: seams::CountingAlloc = seams::CountingAlloc;
 macro_rules! dispatch {
     ($id:expr, $f:ident, $($arg:expr),*) => {
         match $id {
+            "C02" => runner::$f::<scen::c02::C02>($($arg),*),
+            "C03" => runner::$f::<scen::interp2::C03>($($arg),*),
+            "C04" => runner::$f::<scen::interp::C04>($($arg),*),
+            "C08" => runner::$f::<scen::interp::C08>($($arg),*),
+            "C25" => runner::$f::<scen::interp2::C25>($($arg),*),
+            "C31" => runner::$f::<scen::interp::C31>($($arg),*),
             "C12" => runner::$f::<scen::alloc::C12>($($arg),*),
             "C13" => runner::$f::<scen::alloc::C13>($($arg),*),
             "C14" => runner::$f::<scen::alloc::C14>($($arg),*),
+            "C16" => runner::$f::<scen::de::C16>($($arg),*),
+            "C20" => runner::$f::<scen::de::C20>($($arg),*),
             "C17" => runner::$f::<scen::ser::C17>($($arg),*),
             "C19" => runner::$f::<scen::ser::C19>($($arg),*),
             "C29" => runner::$f::<scen::c29::C29>($($arg),*),
